@@ -237,6 +237,45 @@ def check_projector(ck):
     ck.stats["projector_worst_relative_error"] = worst
 
 
+def check_mixed_rules(ck):
+    """the accelerated pseudopotential code with a DIFFERENT rule on each atom (12/6, 6/12, 18/6, 26/12 points, the default table):
+    the energy is additive over atoms, so it must equal the sum of single-atom evaluations with each atom's own rule (fixed orientation,
+    every point kept)"""
+    import pyqmc.observables.jax_ecp as je
+    from pyqmc.configurations.coord import OpenConfigs
+    from c13 import Mol2, FixedRotation
+    from stubs import GaussWF
+    S = "pyqmc/observables/jax_ecp.py:evaluate_vl (per-atom rules)"
+    combos = [(12, 6), (6, 12), (18, 6), (6, 18), (26, 12), (12, 12), None]
+    for it, combo in enumerate(combos if ck.thorough else combos[:4] + combos[-1:]):
+        ch = lambda L: dict([(l, (float(ck.rng.uniform(0.4, 1.5)), float(ck.rng.normal()))) for l in range(L + 1)] + [(-1, (0.9, float(ck.rng.normal())))])
+        L1, L2 = (3, 1) if combo is None else (2, 2)   # default table: 12 points for the first atom (channels up to f), 6 for the second
+        A = ("X", ck.rng.normal(size=3) * 0.3 + 1.0, ch(L1))
+        B = ("Y", ck.rng.normal(size=3) * 0.3 + np.array([3.0, 2.0, 2.5]), ch(L2))
+        nconf, nelec = 4, 2
+        cfg = OpenConfigs(ck.rng.normal(size=(nconf, nelec, 3)) * 1.2 + 2.0)
+        wf = GaussWF(alpha=0.5, beta=0.2, center=2.0)
+        wf.recompute(cfg)
+        inp = {"rules": list(combo) if combo else "default table", "max_channel": [L1, L2]}
+        def run():
+            with FixedRotation():
+                kw = dict(stochastic_rotation=False, nselect_deterministic=1000, nselect_random=0)
+                both = je.ECPAccumulator(Mol2([A, B]), naip=(np.array(combo) if combo else None), **kw)
+                rules = [int(x) for x in both.naip]
+                ea = je.ECPAccumulator(Mol2([A]), naip=np.array([rules[0]]), **kw)(cfg, wf)
+                eb = je.ECPAccumulator(Mol2([B]), naip=np.array([rules[1]]), **kw)(cfg, wf)
+                return rules, np.asarray(both(cfg, wf)), np.asarray(ea) + np.asarray(eb)
+        ok, res = ck.guarded(run, "mixed_rules", S, inp)
+        ck.case(("mixed", it), nontrivial=True)
+        if not ok:
+            continue
+        rules, got, ref = res
+        err = float(np.max(np.abs(got - ref) / np.maximum(1.0, np.abs(ref))))
+        if not np.isfinite(err) or err > 1e-10:
+            ck.violation("projector_not_additive_over_atoms", S, dict(inp, rules_used=rules), expected=np.real(ref).tolist(), got=np.real(got).tolist(),
+                         oracle="sum of single-atom evaluations, each with that atom's own quadrature rule, same orientation")
+
+
 def main(argv):
     ck = Check("C12", argv)
     ck.rule = ("the six rules are built in exact rings inside Coq and printed; every copy of generate_quadrature_grids in /repo is compared with them point by point (1e-14) and tested on all monomials up to its degree in random orientations; "
@@ -249,4 +288,5 @@ def main(argv):
     check_grids(ck)
     check_legendre(ck)
     check_projector(ck)
+    check_mixed_rules(ck)
     return ck.finish()
